@@ -611,6 +611,14 @@ func (w *world) observe() {
 			}
 			continue
 		}
+		if old, ok := w.partial[n]; ok && full {
+			// it has been completed: by keeping what it held?
+			for _, k := range need {
+				if len(old[k]) > 0 && !bytes.Equal(old[k], d[k]) {
+					w.s.Violate("C20/existing-certificate-replaced/"+n+"/partially-filled", fmt.Sprintf("secret %s held %s (and not all of the other keys); it changed", n, k))
+				}
+			}
+		}
 		if full {
 			w.complete[n] = d
 		} else if n != "crossplane-root-ca" {
